@@ -108,3 +108,31 @@ func VH_C13_StringBoundary() {
 		vh.Reach("reject")
 	}
 }
+
+// VH_C13_AcceptsEncoderOutput: everything cbor.Encoder emits in the subset {uint, byte string, text string, array,
+// map} - a sequence of: a symbolic uint (all 2^64 values), a byte string of 0..2 symbolic bytes, an array of a symbolic
+// uint and the constant 24, and a map of 0..2 entries with symbolic one-byte keys (distinct) - is accepted by Deterministic.
+func VH_C13_AcceptsEncoderOutput() {
+	var w vh.Sink
+	e := NewEncoder(&w)
+	vh.Assume(e.EncodeUint(vh.Uint64("u")) == nil)
+	vh.Assume(e.EncodeByteString(vh.Bytes("b", vh.Choose(3))) == nil)
+	vh.Assume(e.EncodeArrayHeader(2) == nil)
+	vh.Assume(e.EncodeUint(vh.Uint64("a0")) == nil && e.EncodeUint(24) == nil)
+	n := vh.Choose(3)
+	var mes []*MapEntryEncoder
+	ks := vh.Bytes("k", 2)
+	if n == 2 {
+		vh.Assume(ks[0] != ks[1])
+	}
+	for i := 0; i < n; i++ {
+		k, v := ks[i], uint64(256+i)
+		mes = append(mes, GenerateMapEntry(func(keyE *Encoder, valueE *Encoder) {
+			keyE.EncodeByteString([]byte{k})
+			valueE.EncodeUint(v)
+		}))
+	}
+	vh.Assume(e.EncodeMap(mes) == nil)
+	vh.Assert(c13Verdict(w.B), "Deterministic accepts what the encoder emits in its subset")
+	vh.Assert(refDetSeq(w.B), "and so does the independent recogniser")
+}
